@@ -6,6 +6,7 @@ import (
 	"context"
 	"fmt"
 	"runtime"
+	"sort"
 	"strconv"
 	"strings"
 	"time"
@@ -307,6 +308,12 @@ func (e *Env) doOp(o Op) {
 			e.markGone(o.A)
 		}
 	case "rmclient":
+		before := e.decByMe()
+		_ = e.res.UnsubscribeClient(resolve.ConnectionID(1000 + o.A))
+		// The call removed (and completed) exactly n subscriptions of the connection.  Which ones is only known when
+		// n covers every subscription of the connection that was ever added and is not yet known to be gone (the
+		// removed ones are among these; candidates are taken AFTER the call, the operation may have waited long).
+		n := e.decByMe() - before
 		var sids []int
 		e.mu.Lock()
 		for sid, rt := range e.subs {
@@ -315,11 +322,8 @@ func (e *Env) doOp(o Op) {
 			}
 		}
 		e.mu.Unlock()
-		before := e.decByMe()
-		_ = e.res.UnsubscribeClient(resolve.ConnectionID(1000 + o.A))
-		// the call removed (and completed) exactly n subscriptions of the connection; which ones is only
-		// known when n covers all candidates
-		if n := e.decByMe() - before; n > 0 && n == len(sids) {
+		sort.Ints(sids)
+		if n > 0 && n == len(sids) {
 			for _, sid := range sids {
 				e.markGone(sid)
 			}
